@@ -264,6 +264,7 @@ func init() {
 		lowMax.MaxTimeout, lowMax.Name = 1, "max-timeout-1"
 		runs = append(runs, RunSpec{Name: "life-max-timeout-lowered", Sc: withFunds(scLife(paramSet("0.1", "0.001"), []Template{tLong, tOne2}, AlphaOpts{RespKinds: []string{"ok"}, CtxOps: []string{"pause", "start"}, ParamChanges: []ParamSet{lowMax}}, d, b, m), 30, 5), Oracles: o, Mon: MonFlags{Req: true}})
 		runs = append(runs, runsOf(lifeRuns(tier), o, MonFlags{Req: true})...)
+		runs = append(runs, RunSpec{Name: "huge-values", Sc: scHuge(paramSet("0.1", "0.001"), d-2, b-1, 2), Oracles: o, Mon: MonFlags{Req: true}})
 		return runs
 	}})
 	register(&CheckSpec{Prop: "C09", Runs: func(tier string) []RunSpec {
